@@ -178,6 +178,7 @@ fn finding(system: &str, clause: &str, case: Vec<String>, msg: String, replay: s
 
 pub fn clause_of(m: &str) -> String {
     for (pat, c) in [
+        ("panic:", "panic"),
         ("forbidden control byte", "forbidden-byte-in-output"),
         ("forbidden byte", "forbidden-byte-in-output"),
         ("not visible text was emitted", "non-visible-byte-emitted"),
@@ -238,7 +239,7 @@ fn main_check(ctx: &Ctx) -> Outcome {
             for (si, st) in starts.iter().enumerate() {
                 let (mut imp, mut model) = st.clone();
                 evals.fetch_add(1, Ordering::Relaxed);
-                match run_strip_bytes(&mut imp, &mut model, chunk) {
+                match guard(|| run_strip_bytes(&mut imp, &mut model, chunk)).and_then(|r| r) {
                     Ok(o) => {
                         local.insert(hash_of(&(o, format!("{imp:?}"))));
                     }
@@ -276,7 +277,7 @@ fn main_check(ctx: &Ctx) -> Outcome {
     let inputs: Vec<Vec<u8>> = strings_upto(alpha.len(), n_one).map(|c| c.iter().map(|&i| alpha[i]).collect()).collect();
     inputs.par_iter().for_each(|inp| {
         evals.fetch_add(1, Ordering::Relaxed);
-        if let Err((sys, m)) = oneshot_bytes(inp) {
+        if let Err((sys, m)) = guard(|| oneshot_bytes(inp)).unwrap_or_else(|p| Err(("strip_bytes/streams".to_string(), p))) {
             let mut v = viol.lock().unwrap();
             if v.len() < 200 {
                 v.push(finding(&sys, &clause_of(&m), vec![hex(inp)], m, json!({"kind":"oneshot-bytes","input":hex(inp)})));
@@ -295,7 +296,7 @@ fn main_check(ctx: &Ctx) -> Outcome {
             }
             let (mut imp, mut model) = st.clone();
             evals.fetch_add(1, Ordering::Relaxed);
-            if let Err(m) = run_strip_str(&mut imp, &mut model, s) {
+            if let Err(m) = guard(|| run_strip_str(&mut imp, &mut model, s)).and_then(|r| r) {
                 let mut v = viol.lock().unwrap();
                 if v.len() < 200 {
                     v.push(finding(
@@ -309,7 +310,7 @@ fn main_check(ctx: &Ctx) -> Outcome {
             }
         }
         evals.fetch_add(1, Ordering::Relaxed);
-        if let Err((sys, m)) = oneshot_str(s) {
+        if let Err((sys, m)) = guard(|| oneshot_str(s)).unwrap_or_else(|p| Err(("strip_str".to_string(), p))) {
             let mut v = viol.lock().unwrap();
             if v.len() < 200 {
                 v.push(finding(&sys, &clause_of(&m), vec![hex(s.as_bytes())], m, json!({"kind":"oneshot-str","input":hex(s.as_bytes())})));
